@@ -2,7 +2,16 @@
 from gen import gen_gated
 from props._semprop import simple
 
+from common import prove
+
+MODULE = 'Proofs.Props.C03'
+THEOREMS = ['Facto.gated_cell_step', 'Facto.gated_cell_only_ty', 'Facto.cell_zero_before_write', 'Facto.cell_follows', 'Facto.cell_holds', 'Facto.Circuit.settle']
+
 
 def run(res, tier):
+    proved = prove(res, MODULE, THEOREMS)
     simple(res, tier, gen_gated, 64, 800, "seeded generator of programs with 1-2 write(v, when=c) cells, stateless data/enable, 1-3 readers each; one-input-at-a-time histories, every step held until settled",
            extra_case={"steps": 14 if tier == "quick" else 60})
+    if not proved:
+        res.violation({"reason": "a proof obligation of C03 no longer checks", "problems": res.proof_problems,
+                       "log": res.proof_log[-1500:], "obligation": MODULE}, failing_input=False)
